@@ -229,6 +229,21 @@ impl<'ast> Visit<'ast> for LoopFinder {
         }
         syn::visit::visit_expr_reference(self, e);
     }
+    fn visit_expr_assign(&mut self, e: &'ast syn::ExprAssign) {
+        // D40: (A, B, ..) = E   (destructuring assignment to place expressions)
+        if let syn::Expr::Tuple(t) = &*e.left {
+            if t.elems.len() >= 2 && t.elems.iter().all(|x| matches!(x, syn::Expr::Field(_) | syn::Expr::Path(_))) {
+                let call = e.span().byte_range();
+                let r = e.right.span().byte_range();
+                let places: Vec<String> = t.elems.iter().map(|x| { let b = x.span().byte_range(); format!("[{},{}]", b.start, b.end) }).collect();
+                self.vd.push(format!(
+                    "{{\"rule\":\"D40\",\"call\":[{},{}],\"rhs\":[{},{}],\"places\":[{}]}}",
+                    call.start, call.end, r.start, r.end, places.join(",")
+                ));
+            }
+        }
+        syn::visit::visit_expr_assign(self, e);
+    }
     fn visit_expr_binary(&mut self, e: &'ast syn::ExprBinary) {
         // D34: L &= R  (on bools: Verus has no non-short-circuit `&`)
         if let syn::BinOp::BitAndAssign(_) = e.op {
@@ -305,6 +320,27 @@ impl<'ast> Visit<'ast> for LoopFinder {
                         self.vd.push(format!(
                             "{{\"rule\":\"D23\",\"call\":[{},{}],\"recv\":[{},{}],\"pat\":[{},{}],\"body\":[{},{}]}}",
                             call.start, call.end, recv.start, recv.end, pat.start, pat.end, body.start, body.end
+                        ));
+                    }
+                }
+            }
+        }
+        // D39: X.iter().fold(INIT, |ACC, P| BODY)
+        if e.method == "fold" && e.args.len() == 2 {
+            if let (syn::Expr::Closure(c), syn::Expr::MethodCall(it)) = (&e.args[1], &*e.receiver) {
+                if it.method == "iter" && it.args.is_empty() && c.inputs.len() == 2 && matches!(c.inputs[1], syn::Pat::Ident(_)) {
+                    let mut ef = EscapeFinder::default();
+                    ef.visit_expr(&c.body);
+                    if ef.escapes == 0 {
+                        let call = e.span().byte_range();
+                        let recv = it.receiver.span().byte_range();
+                        let init = e.args[0].span().byte_range();
+                        let acc = c.inputs[0].span().byte_range();
+                        let pat = c.inputs[1].span().byte_range();
+                        let body = c.body.span().byte_range();
+                        self.vd.push(format!(
+                            "{{\"rule\":\"D39\",\"call\":[{},{}],\"recv\":[{},{}],\"init\":[{},{}],\"acc\":[{},{}],\"pat\":[{},{}],\"body\":[{},{}]}}",
+                            call.start, call.end, recv.start, recv.end, init.start, init.end, acc.start, acc.end, pat.start, pat.end, body.start, body.end
                         ));
                     }
                 }
@@ -492,6 +528,43 @@ impl<'ast> Visit<'ast> for LoopFinder {
                                             "{{\"rule\":\"D22\",\"call\":[{},{}],\"recv\":[{},{}],\"fpat\":[{},{}],\"fbody\":[{},{}],\"pat\":[{},{}],\"body\":[{},{}]}}",
                                             call.start, call.end, recv.start, recv.end, fp.start, fp.end, fb.start, fb.end, mp.start, mp.end, mb.start, mb.end
                                         ));
+                                    }
+                                }
+                            }
+                        }
+                    }
+                }
+                // D38: X.iter().enumerate().filter(|&(I, _)| C).map(|(_, Q)| E).collect()
+                if fm.method == "map" && fm.args.len() == 1 {
+                    if let (syn::Expr::Closure(cm), syn::Expr::MethodCall(fl)) = (&fm.args[0], &*fm.receiver) {
+                        if fl.method == "filter" && fl.args.len() == 1 {
+                            if let (syn::Expr::Closure(cf), syn::Expr::MethodCall(en)) = (&fl.args[0], &*fl.receiver) {
+                                if en.method == "enumerate" && en.args.is_empty() && cm.inputs.len() == 1 && cf.inputs.len() == 1 {
+                                    if let syn::Expr::MethodCall(it) = &*en.receiver {
+                                        // the filter closure takes `&(a, b)`, the map closure `(a, b)`
+                                        let fpat_inner = match &cf.inputs[0] {
+                                            syn::Pat::Reference(r) => match &*r.pat { syn::Pat::Tuple(t) if t.elems.len() == 2 => Some(t.span().byte_range()), _ => None },
+                                            _ => None,
+                                        };
+                                        let mpat_ok = matches!(&cm.inputs[0], syn::Pat::Tuple(t) if t.elems.len() == 2);
+                                        if it.method == "iter" && it.args.is_empty() && mpat_ok {
+                                            if let Some(fp) = fpat_inner {
+                                                let mut ef = EscapeFinder::default();
+                                                ef.visit_expr(&cm.body);
+                                                ef.visit_expr(&cf.body);
+                                                if ef.escapes == 0 {
+                                                    let call = e.span().byte_range();
+                                                    let recv = it.receiver.span().byte_range();
+                                                    let fb = cf.body.span().byte_range();
+                                                    let mp = cm.inputs[0].span().byte_range();
+                                                    let mb = cm.body.span().byte_range();
+                                                    self.vd.push(format!(
+                                                        "{{\"rule\":\"D38\",\"call\":[{},{}],\"recv\":[{},{}],\"fpat\":[{},{}],\"fbody\":[{},{}],\"pat\":[{},{}],\"body\":[{},{}]}}",
+                                                        call.start, call.end, recv.start, recv.end, fp.start, fp.end, fb.start, fb.end, mp.start, mp.end, mb.start, mb.end
+                                                    ));
+                                                }
+                                            }
+                                        }
                                     }
                                 }
                             }
